@@ -181,7 +181,7 @@ func checkC10(P *Program, r *Result, tier string) {
 		n := 0
 		for _, b := range fn.Blocks {
 			for _, ins := range b.Instrs {
-				if bo, ok := ins.(*ssa.BinOp); ok && bo.Op == token.EQL && bo.X == ssa.Value(fn.Params[0]) {
+				if bo, ok := ins.(*ssa.BinOp); ok && bo.Op == token.EQL && sameWidthSource(bo.X) == ssa.Value(fn.Params[0]) {
 					if k, ok := constInt(bo.Y); ok {
 						n++
 						if _, isDecl := decl[k]; !isDecl {
@@ -201,7 +201,7 @@ func checkC10(P *Program, r *Result, tier string) {
 				all := true
 				for _, b := range fn.Blocks {
 					for _, ins := range b.Instrs {
-						if bo, ok := ins.(*ssa.BinOp); ok && bo.Op == token.EQL && bo.X == ssa.Value(fn.Params[0]) {
+						if bo, ok := ins.(*ssa.BinOp); ok && bo.Op == token.EQL && sameWidthSource(bo.X) == ssa.Value(fn.Params[0]) {
 							if !guardedBy(ret, bo, false) {
 								all = false
 							}
@@ -317,8 +317,8 @@ func sectionRules(P *Program, r *Result, ruleErr, ruleMap string) {
 						rv := ret.Results[len(ret.Results)-1]
 						nonnil := fa.prove(ineqGE(fa.nilExpand(rv), linConst(1)), ret.Block(), rootCtx)
 						if !nonnil {
-							// allowed only: the info-id read in readKVInfo mapping io.EOF to success
-							if fn == rk && cal.Name() == "Bytes2Uint8" {
+							// allowed only: the read of the dispatched info id in readKVInfo, where end-of-data is the regular end of the header
+							if fn == rk && isDispatchedTag(resultValue(cc, 0)) {
 								continue
 							}
 							okAll = false
@@ -334,14 +334,40 @@ func sectionRules(P *Program, r *Result, ruleErr, ruleMap string) {
 		check(fn)
 	}
 	check(rk)
-	// only the info-id read may turn io.EOF into success
-	n8 := 0
-	for _, c := range callsIn(rk) {
-		if cal := c.Common().StaticCallee(); cal != nil && cal.Name() == "Bytes2Uint8" {
-			n8++
+	// success is only possible at an info-id boundary: no return that may carry a nil error is reachable from a
+	// section-reader call without going round the loop first
+	var header *ssa.BasicBlock
+	for _, b := range rk.Blocks {
+		for _, p := range b.Preds {
+			if b.Dominates(p) && (header == nil || b.Dominates(header)) {
+				header = b
+			}
 		}
 	}
-	r.add(ruleErr, shortName(rk), "loop", "exactly one read (the info id) may end the header with success", P.pos(rk.Pos()), n8 == 1, "")
+	okLoop, detailLoop := header != nil, "no section loop found"
+	if header != nil {
+		detailLoop = ""
+		A := newAnalysis(P)
+		fa := A.fa(rk)
+		fa.noGeneralize = true
+		for _, ret := range returnsOf(rk) {
+			rv := ret.Results[len(ret.Results)-1]
+			if fa.prove(ineqGE(fa.nilExpand(rv), linConst(1)), ret.Block(), rootCtx) {
+				continue
+			}
+			for _, c := range callsIn(rk) {
+				cc, ok := c.(*ssa.Call)
+				if !ok || !seen[c.Common().StaticCallee()] {
+					continue
+				}
+				if reachesWithout(cc, ret, func(in ssa.Instruction) bool { return in.Block() == header }) {
+					okLoop = false
+					detailLoop = "the return at " + P.pos(instrPos(ret)) + " may report success in the middle of a section (after " + c.Common().StaticCallee().Name() + ")"
+				}
+			}
+		}
+	}
+	r.add(ruleErr, shortName(rk), "loop", "the header can only end with success at an info-id boundary", P.pos(rk.Pos()), okLoop, detailLoop)
 	// MAP-KEEP
 	for _, b := range rk.Blocks {
 		for _, in := range b.Instrs {
@@ -632,16 +658,16 @@ func checkC06(P *Program, r *Result, tier string) {
 					}
 					// index: phi from 0 step 1, guarded by i < len(buf)
 					if rangeIndexFromZero(ia.Index) && fw.prove(ineqLT(fw.expand(ia.Index), fw.sliceDesc(buf).Len), b, rootCtx) {
-						// the loop runs until i reaches len(buf): exit condition is exactly i ≥ len(buf)
-						ph, _ := ia.Index.(*ssa.Phi)
-						if ph != nil {
-							hb := ph.Block()
-							if iff, ok := hb.Instrs[len(hb.Instrs)-1].(*ssa.If); ok {
-								ef := &edgeFacts{}
-								fw.condFacts(iff.Cond, false, ef)
-								if entails(fw.closeFacts(ef.ineq, nil, nil, ineqGE(fw.expand(ph), fw.sliceDesc(buf).Len)), ineqGE(fw.expand(ph), fw.sliceDesc(buf).Len)) {
-									zero = true
-								}
+						// the loop runs until the index reaches len(buf): the negation of a dominating loop test is exactly index ≥ len(buf)
+						goal := ineqGE(fw.expand(ia.Index), fw.sliceDesc(buf).Len)
+						for _, dc := range blockConds(b, nil, 0) {
+							if !dc.Truth {
+								continue
+							}
+							ef := &edgeFacts{}
+							fw.condFacts(dc.Cond, false, ef)
+							if entails(fw.closeFacts(ef.ineq, nil, nil, goal), goal) {
+								zero = true
 							}
 						}
 					}
@@ -753,6 +779,10 @@ func countRule(P *Program, r *Result, run *e1Run, fn *ssa.Function) {
 				return fa.expand(v)
 			}
 		}
+		// a repository helper that only reports an error: the constant number of bytes all its success paths emit
+		if k, ok := constEmission(cal, 0); ok && k > 0 {
+			return linConst(k)
+		}
 		return nil
 	}
 	// the size variable at a point = value returned if the function returned now; we follow the
@@ -853,24 +883,142 @@ func countRule(P *Program, r *Result, run *e1Run, fn *ssa.Function) {
 	r.add("COUNT", shortName(fn), "paths", fmt.Sprintf("returned size − initial size = bytes emitted, on each of the %d enumerated success paths (every loop body taken 0, 1 and 2 times)", paths), P.pos(fn.Pos()), bad == "", bad)
 }
 
+// constEmission: fn (a repository function whose only result is an error) emits
+// the same constant number of bytes on each of its success paths, counted from
+// Malloc(n) with constant n and from the fixed-width primitive writers.
+func constEmission(fn *ssa.Function, depth int) (int64, bool) {
+	if fn == nil || fn.Blocks == nil || !inRepo(fn) || depth > 3 {
+		return 0, false
+	}
+	res := fn.Signature.Results()
+	if res.Len() != 1 || !isErrorType(res.At(0).Type()) {
+		return 0, false
+	}
+	emit := func(c *ssa.Call) (int64, bool, bool) { // amount, emits, understood
+		com := c.Common()
+		if com.IsInvoke() {
+			switch com.Method.Name() {
+			case "Malloc":
+				k, ok := constInt(com.Args[0])
+				return k, true, ok
+			case "WriteBinary", "Flush":
+				return 0, true, false
+			}
+			return 0, false, true
+		}
+		cal := com.StaticCallee()
+		if cal == nil || !inRepo(cal) {
+			return 0, false, true
+		}
+		k, ok := constEmission(cal, depth+1)
+		if ok {
+			return k, k > 0, true
+		}
+		// a repository callee that takes a writer but is not understood
+		for _, p := range cal.Params {
+			if types.IsInterface(p.Type()) {
+				return 0, true, false
+			}
+		}
+		return 0, false, true
+	}
+	total := int64(-1)
+	ok := true
+	var walk func(b *ssa.BasicBlock, acc int64, seen map[*ssa.BasicBlock]bool)
+	walk = func(b *ssa.BasicBlock, acc int64, seen map[*ssa.BasicBlock]bool) {
+		if !ok || seen[b] {
+			if seen[b] {
+				ok = false // loops: not a constant emitter
+			}
+			return
+		}
+		seen[b] = true
+		defer delete(seen, b)
+		for _, in := range b.Instrs {
+			if c, isC := in.(*ssa.Call); isC {
+				k, emits, understood := emit(c)
+				if !understood {
+					ok = false
+					return
+				}
+				if emits {
+					acc += k
+				}
+			}
+		}
+		if ret, isRet := b.Instrs[len(b.Instrs)-1].(*ssa.Return); isRet {
+			ev := ret.Results[0]
+			if isKnownError(ev) {
+				return
+			}
+			// error branches of `if err != nil { return err }`
+			if in := ret; guardedNonNil(in, ev) {
+				return
+			}
+			if total >= 0 && total != acc {
+				ok = false
+			}
+			total = acc
+			return
+		}
+		for _, s := range b.Succs {
+			walk(s, acc, seen)
+		}
+	}
+	walk(fn.Blocks[0], 0, map[*ssa.BasicBlock]bool{})
+	if !ok || total < 0 {
+		return 0, false
+	}
+	return total, true
+}
+
 // sectionsRule: ids and primitive sequences of encoder sections pair with the decoder.
 func sectionsRule(P *Program, r *Result, wkv *ssa.Function) {
 	rk := P.Func(relTT, "readKVInfo")
 	if rk == nil {
 		return
 	}
-	// ids the encoder emits: constant arguments of WriteByte
-	encIDs := map[int64]*ssa.Call{}
-	for _, c := range callsIn(wkv) {
-		if cal := c.Common().StaticCallee(); cal != nil && cal.Name() == "WriteByte" {
-			if k, ok := constInt(c.Common().Args[0]); ok {
-				encIDs[k] = c.(*ssa.Call)
+	// the encoder as one token stream (helpers inlined, constant arguments followed through them)
+	encTok := flatSeq(wkv, nil, 0, func(c *ssa.Call, constArg func(int) (int64, bool)) string {
+		if cal := c.Common().StaticCallee(); cal != nil {
+			switch cal.Name() {
+			case "WriteByte":
+				if k, ok := constArg(0); ok {
+					return fmt.Sprintf("ID:%d", k)
+				}
+				return "Bytes2Uint8"
+			case "WriteUint16":
+				return "Bytes2Uint16"
+			case "WriteString2BLen":
+				return "ReadString2BLen"
 			}
 		}
+		if c.Common().IsInvoke() && c.Common().Method.Name() == "Malloc" {
+			return "STOP"
+		}
+		return ""
+	})
+	encSections := map[int64]string{}
+	encPos := map[int64]token.Pos{}
+	for i, t := range encTok {
+		if !strings.HasPrefix(t.Tok, "ID:") {
+			continue
+		}
+		var id int64
+		fmt.Sscanf(t.Tok, "ID:%d", &id)
+		var seq []string
+		for _, u := range encTok[i+1:] {
+			if strings.HasPrefix(u.Tok, "ID:") || u.Tok == "STOP" {
+				break
+			}
+			seq = append(seq, u.Tok)
+		}
+		// drop an unmatched trailing "[" / leading "]" produced by the cut
+		encSections[id] = balance(seq)
+		encPos[id] = t.Pos
 	}
 	// decoder cases: constant → section reader
 	decCases := map[int64]*ssa.Function{}
-	var tag ssa.Value
 	for _, b := range rk.Blocks {
 		for _, in := range b.Instrs {
 			bo, ok := in.(*ssa.BinOp)
@@ -881,53 +1029,32 @@ func sectionsRule(P *Program, r *Result, wkv *ssa.Function) {
 			if !okk {
 				continue
 			}
-			tag = bo.X
-			// reader called in the region dominated by the true edge
-			tb := in.Block().Succs[0]
-			if iff, ok := in.Block().Instrs[len(in.Block().Instrs)-1].(*ssa.If); !ok || iff.Cond != ssa.Value(bo) {
-				continue
+			if _, seenCase := decCases[k]; !seenCase {
+				decCases[k] = nil
 			}
-			decCases[k] = nil
 			for _, c := range callsIn(rk) {
 				cal := c.Common().StaticCallee()
-				if cal != nil && inRepo(cal) && strings.HasPrefix(cal.Name(), "read") && (c.(*ssa.Call).Block() == tb || tb.Dominates(c.(*ssa.Call).Block())) {
+				if cal != nil && inRepo(cal) && hasBufferParams(cal) && inTrueRegion(c.(*ssa.Call).Block(), bo) {
 					decCases[k] = cal
 				}
 			}
 		}
 	}
-	_ = tag
-	if len(encIDs) < 3 {
-		r.fatal("expected 3 info ids emitted by writeKVInfo, found %d", len(encIDs))
+	if len(encSections) < 3 {
+		r.fatal("expected 3 info ids emitted by writeKVInfo, found %d", len(encSections))
 	}
-	ids := make([]int64, 0, len(encIDs))
-	for k := range encIDs {
+	ids := make([]int64, 0, len(encSections))
+	for k := range encSections {
 		ids = append(ids, k)
 	}
 	sort.Slice(ids, func(i, j int) bool { return ids[i] < ids[j] })
-	pair := map[string]string{"WriteUint16": "Bytes2Uint16", "WriteString2BLen": "ReadString2BLen", "WriteByte": "Bytes2Uint8"}
 	for _, id := range ids {
 		reader, has := decCases[id]
-		r.add("SECTIONS", shortName(wkv), "id", fmt.Sprintf("info id %#x emitted by the encoder is a case of the decoder", id), P.pos(instrPos(encIDs[id])), has && reader != nil, "")
+		r.add("SECTIONS", shortName(wkv), "id", fmt.Sprintf("info id %#x emitted by the encoder is a case of the decoder", id), P.pos(encPos[id]), has && reader != nil, "")
 		if reader == nil {
 			continue
 		}
-		// encoder sequence: calls after the id write, inside the region guarded like the id write, until the next id write
-		encSeq := callSeq(wkv, encIDs[id], func(c *ssa.Call) string {
-			if cal := c.Common().StaticCallee(); cal != nil {
-				if _, ok := pair[cal.Name()]; ok {
-					if cal.Name() == "WriteByte" {
-						return "STOP"
-					}
-					return pair[cal.Name()]
-				}
-			}
-			if c.Common().IsInvoke() && c.Common().Method.Name() == "Malloc" {
-				return "STOP"
-			}
-			return ""
-		})
-		decSeq := callSeq(reader, nil, func(c *ssa.Call) string {
+		decTok := flatSeq(reader, nil, 0, func(c *ssa.Call, _ func(int) (int64, bool)) string {
 			if cal := c.Common().StaticCallee(); cal != nil {
 				switch cal.Name() {
 				case "Bytes2Uint16", "ReadString2BLen", "Bytes2Uint8":
@@ -936,6 +1063,11 @@ func sectionsRule(P *Program, r *Result, wkv *ssa.Function) {
 			}
 			return ""
 		})
+		var ds []string
+		for _, t := range decTok {
+			ds = append(ds, t.Tok)
+		}
+		encSeq, decSeq := encSections[id], strings.Join(ds, " ")
 		r.add("SECTIONS", shortName(reader), "sequence", fmt.Sprintf("section %#x: reads pair with the encoder's writes", id), P.pos(reader.Pos()), encSeq == decSeq && encSeq != "", "encoder "+encSeq+" / decoder "+decSeq)
 	}
 	// padding id 0 is accepted by the decoder
@@ -943,11 +1075,56 @@ func sectionsRule(P *Program, r *Result, wkv *ssa.Function) {
 	r.add("SECTIONS", shortName(rk), "id", "the padding id 0 is accepted between sections", P.pos(rk.Pos()), pad, "")
 }
 
-// callSeq renders the sequence of relevant calls of fn in reverse post-order,
-// starting after `from` (nil = function entry), with "[" "]" around loop bodies;
-// it stops at the first call labelled STOP.
-func callSeq(fn *ssa.Function, from *ssa.Call, label func(*ssa.Call) string) string {
-	// reverse post-order
+func hasBufferParams(fn *ssa.Function) bool {
+	for _, p := range fn.Params {
+		if isByteSlice(p.Type()) {
+			return true
+		}
+	}
+	return false
+}
+
+func balance(seq []string) string {
+	var out []string
+	depth := 0
+	for _, t := range seq {
+		switch t {
+		case "[":
+			depth++
+		case "]":
+			if depth == 0 {
+				continue
+			}
+			depth--
+		}
+		out = append(out, t)
+	}
+	for depth > 0 {
+		// remove the last unmatched "["
+		for i := len(out) - 1; i >= 0; i-- {
+			if out[i] == "[" {
+				out = append(out[:i], out[i+1:]...)
+				break
+			}
+		}
+		depth--
+	}
+	return strings.Join(out, " ")
+}
+
+type seqTok struct {
+	Tok string
+	Pos token.Pos
+}
+
+// flatSeq renders the labelled calls of fn in reverse post-order with "[" "]"
+// around loop bodies. Calls to repository helpers that themselves contain
+// labelled calls are expanded in place; consts carries the constant values of fn's
+// parameters so that a constant handed through a helper is still seen as one.
+func flatSeq(fn *ssa.Function, consts map[*ssa.Parameter]int64, depth int, label func(c *ssa.Call, constArg func(int) (int64, bool)) string) []seqTok {
+	if fn == nil || fn.Blocks == nil || depth > 3 {
+		return nil
+	}
 	var order []*ssa.BasicBlock
 	seen := map[*ssa.BasicBlock]bool{}
 	var dfs func(b *ssa.BasicBlock)
@@ -964,54 +1141,139 @@ func callSeq(fn *ssa.Function, from *ssa.Call, label func(*ssa.Call) string) str
 	for i, j := 0, len(order)-1; i < j; i, j = i+1, j-1 {
 		order[i], order[j] = order[j], order[i]
 	}
-	var out []string
-	started := from == nil
+	constOf := func(v ssa.Value) (int64, bool) {
+		for {
+			if k, ok := constInt(v); ok {
+				return k, true
+			}
+			switch x := v.(type) {
+			case *ssa.Convert:
+				v = x.X
+				continue
+			case *ssa.ChangeType:
+				v = x.X
+				continue
+			case *ssa.Parameter:
+				k, ok := consts[x]
+				return k, ok
+			}
+			return 0, false
+		}
+	}
+	var out []seqTok
 	inL := false
 	for _, b := range order {
-		if from != nil && !(b == from.Block() || from.Block().Dominates(b)) {
-			continue
-		}
 		for _, in := range b.Instrs {
 			c, ok := in.(*ssa.Call)
 			if !ok {
 				continue
 			}
-			if c == from {
-				started = true
-				continue
-			}
-			if !started {
-				continue
-			}
-			l := label(c)
-			if l == "" {
-				continue
-			}
-			if l == "STOP" {
-				if inL {
-					out = append(out, "]")
+			args := c.Common().Args
+			l := label(c, func(i int) (int64, bool) {
+				if i >= len(args) {
+					return 0, false
 				}
-				return strings.Join(out, " ")
+				return constOf(args[i])
+			})
+			var toks []seqTok
+			if l != "" {
+				toks = []seqTok{{l, c.Pos()}}
+			} else if cal := c.Common().StaticCallee(); cal != nil && inRepo(cal) && cal != fn && !c.Common().IsInvoke() {
+				sub := map[*ssa.Parameter]int64{}
+				for i, p := range cal.Params {
+					if i < len(args) {
+						if k, ok := constOf(args[i]); ok {
+							sub[p] = k
+						}
+					}
+				}
+				toks = flatSeq(cal, sub, depth+1, label)
+			}
+			if len(toks) == 0 {
+				continue
 			}
 			loop := inLoop(b)
 			if loop && !inL {
-				out = append(out, "[")
+				out = append(out, seqTok{"[", c.Pos()})
 				inL = true
 			}
 			if !loop && inL {
-				out = append(out, "]")
+				out = append(out, seqTok{"]", c.Pos()})
 				inL = false
 			}
-			out = append(out, l)
+			out = append(out, toks...)
 		}
 	}
 	if inL {
-		out = append(out, "]")
+		out = append(out, seqTok{"]", token.NoPos})
 	}
-	return strings.Join(out, " ")
+	return out
 }
 
 func init() {
 	register("C10", "other", checkC10)
 	register("C06", "other", checkC06)
+}
+
+// sameWidthSource strips conversions that keep every bit (named ↔ underlying
+// type, signedness changes of equal width).
+func sameWidthSource(v ssa.Value) ssa.Value {
+	for {
+		switch x := v.(type) {
+		case *ssa.ChangeType:
+			v = x.X
+		case *ssa.Convert:
+			w1, _ := intBits(x.Type())
+			w2, _ := intBits(x.X.Type())
+			if w1 == 0 || w1 != w2 {
+				return v
+			}
+			v = x.X
+		default:
+			return v
+		}
+	}
+}
+
+// isDispatchedTag: v (through conversions) is compared with constants, i.e. it is the tag a switch dispatches on.
+func isDispatchedTag(v ssa.Value) bool {
+	if v == nil {
+		return false
+	}
+	seen := map[ssa.Value]bool{}
+	var walk func(x ssa.Value) bool
+	walk = func(x ssa.Value) bool {
+		if seen[x] {
+			return false
+		}
+		seen[x] = true
+		refs := x.Referrers()
+		if refs == nil {
+			return false
+		}
+		for _, r := range *refs {
+			switch y := r.(type) {
+			case *ssa.Convert:
+				if walk(y) {
+					return true
+				}
+			case *ssa.ChangeType:
+				if walk(y) {
+					return true
+				}
+			case *ssa.Phi:
+				if walk(y) {
+					return true
+				}
+			case *ssa.BinOp:
+				if y.Op == token.EQL {
+					if _, isC := y.Y.(*ssa.Const); isC {
+						return true
+					}
+				}
+			}
+		}
+		return false
+	}
+	return walk(v)
 }
